@@ -74,6 +74,8 @@ def run(prop, tier, seed, known):
                 fails.append('encode_many accepted the unencodable label %r' % l)
             except chord.InvalidChordException:
                 pass
+            except Exception as ex:
+                fails.append('encode_many([\'C\', %r]) raised %s instead of InvalidChordException: %s' % (l, type(ex).__name__, ex))
             n += 1
     bounded.append(dict(name='chord.encode_many conforms to its assumed contract (row i = encode(labels[i]); InvalidChordException iff some label is unencodable)',
                         bound='200 random batches over %d encodable labels, 20 unencodable labels' % len(ok_labels), cases=n, exhaustive=False,
